@@ -3,6 +3,9 @@
 // Contracts for the verification machinery in /verif (comment only).
 package replicationcontroller
 
+/*@ immutable core/v1.PodTemplateSpec.ObjectMeta
+@*/
+
 /*@ theory rcfilters
 ;; theory filters k8s
 ;; uses core/v1.ReplicationControllerSpec meta/v1.ObjectMeta
@@ -12,8 +15,10 @@ package replicationcontroller
 (define-fun rc-tlabels ((s V)) V
   (|meta/v1.ObjectMeta.Labels| (|F!core/v1.PodTemplateSpec!ObjectMeta| (|core/v1.ReplicationControllerSpec.Template| (|F!core/v1.ReplicationController!Spec| s)))))
 ; what the selector (or, lacking one, the template labels) says about a pod's labels
-(define-fun rcLabelSelects ((s V) (p V)) Bool
-  (ite (mapNonEmpty (rc-sel s)) (submap (rc-sel s) (obj-labels p)) (submap (rc-tlabels s) (obj-labels p))))
+; (an uninterpreted symbol with a defining axiom, so that the quantified postconditions do not unfold it)
+(declare-fun rcLabelSelects (V V) Bool)
+(assert (forall ((s V) (p V)) (! (= (rcLabelSelects s p)
+  (ite (mapNonEmpty (rc-sel s)) (submap (rc-sel s) (obj-labels p)) (submap (rc-tlabels s) (obj-labels p)))) :pattern ((rcLabelSelects s p)))))
 ; C19: ... of a workload in the pod's own namespace
 (define-fun rcSelects ((s V) (p V)) Bool (and (= (obj-ns s) (obj-ns p)) (rcLabelSelects s p)))
 @*/
@@ -23,20 +28,22 @@ package replicationcontroller
   theory rcfilters
   requires [sources-valid] (forall ((j Int)) (=> (and (<= 0 j) (< j (slen {sources})))
         (and (not (= (select (sarr {sources}) j) vnil)) (not (= (obj-ns (select (sarr {sources}) j)) |str!|)))))
+  requires [a-selector-or-a-template] (forall ((j Int)) (=> (and (<= 0 j) (< j (slen {sources})))
+        (or (mapNonEmpty (rc-sel (select (sarr {sources}) j)))
+            (not (= (|core/v1.ReplicationControllerSpec.Template| (|F!core/v1.ReplicationController!Spec| (select (sarr {sources}) j))) vnil)))))
   loop 1 inv [range] (and (<= 0 (+ {rangeindex} 1)) (<= (+ {rangeindex} 1) (slen {srcs})))
-  loop 1 inv [srcs-valid] (forall ((j Int)) (=> (and (<= 0 j) (< j (slen {srcs}))) (not (= (select (sarr {srcs}) j) vnil))))
+  loop 1 inv [srcs-valid] (forall ((j Int)) (=> (and (<= 0 j) (< j (slen {srcs}))) (and (not (= (select (sarr {srcs}) j) vnil))
+        (or (mapNonEmpty (rc-sel (select (sarr {srcs}) j)))
+            (not (= (|core/v1.ReplicationControllerSpec.Template| (|F!core/v1.ReplicationController!Spec| (select (sarr {srcs}) j))) vnil))))))
   loop 1 inv [filters-nonnil] (forall ((q Int)) (=> (and (<= 0 q) (< q (slen {filters}))) (not (= (select (sarr {filters}) q) vnil))))
   loop 1 inv [one-filter-per-source] (and (= (slen {filters}) (+ {rangeindex} 1))
         (forall ((q Int) (o V)) (=> (and (<= 0 q) (< q (slen {filters})))
-            (= (accept (select (sarr {filters}) q) o) (submap (rc-sel (select (sarr {srcs}) q)) (obj-labels o))))))
+            (= (accept (select (sarr {filters}) q) o) (rcLabelSelects (select (sarr {srcs}) q) o)))))
   ensures [is-or] (and (not (= result vnil)) (= (dyntype result) |ty!filter.orFilter|))
-  ensures [accept-iff-some-selector-matches] (forall ((o V)) (= (accept result o)
-        (exists ((j Int)) (and (<= 0 j) (< j (slen {sources})) (submap (rc-sel (select (sarr {sources}) j)) (obj-labels o))))))
-  ensures [namespace-scoped @C19] (forall ((o V)) (=> (accept result o)
-        (exists ((j Int)) (and (<= 0 j) (< j (slen {sources})) (= (obj-ns (select (sarr {sources}) j)) (obj-ns o))
-                               (submap (rc-sel (select (sarr {sources}) j)) (obj-labels o))))))
-  ensures [template-fallback @C19] (forall ((o V)) (=> (accept result o)
+  ensures [accept-iff-some-selector-or-lacking-one-the-template-labels-match] (forall ((o V)) (= (accept result o)
         (exists ((j Int)) (and (<= 0 j) (< j (slen {sources})) (rcLabelSelects (select (sarr {sources}) j) o)))))
+  ensures [namespace-scoped @C19] (forall ((o V)) (=> (accept result o)
+        (exists ((j Int)) (and (<= 0 j) (< j (slen {sources})) (rcSelects (select (sarr {sources}) j) o)))))
 @*/
 
 /*@ func types/replicationcontroller.PodsFilter$1
